@@ -129,19 +129,21 @@ def ref_moving_average(ys, span):
         out.append(sum(w)/len(w))
     return out
 
+def is_sym_like(v): return not isinstance(v, (int, float))
+
 @obligation('C18','raw_learners', bounds={'quick':"2 environments x 2 learners x 1 evaluator, existing triples and lengths enumerated, rewards symbolic; x in {index, a}; span in {None,1,2,3}; l in {learner_id, family}",
                                           'thorough':"3x2x1, span in {None,1,2,3}"},
             functions=FUNCS, budget={'quick':80,'thorough':1500},
-            params=lambda tier: [dict(ne=ne, x=x, span=s, l=l) for ne in ((2,) if tier=='quick' else (2,3)) for x in ('index','a') for s in ((None,1,2,3) if tier=='quick' else (None,1,2,3,5)) for l in ('learner_id','family')])
-def raw_learners(sym, ne, x, span, l):
+            params=lambda tier: [dict(ne=ne, x=x, span=s, l=l) for ne in ((2,) if tier=='quick' else (2,3)) for x in ('index','a') for s in ((None,1,2,3) if tier=='quick' else (None,1,2,3,5)) for l in ('learner_id','family')] + [dict(ne=ne, x='a', span=s, l=l, p=None) for ne in ((2,) if tier=='quick' else (2,3)) for s in (None,2) for l in ('learner_id','family')])     # p=None: no pairing, a label may lack an x that another label has
+def raw_learners(sym, ne, x, span, l, p='environment_id'):
     res, evals = build(sym, ne, 2, 1)
     if not evals: sym.assume(False)
     try:
-        t = res.raw_learners(x=x, y='reward', l=l, p='environment_id', span=span)
+        t = res.raw_learners(x=x, y='reward', l=l, p=p, span=span)
     except CobaException:
-        keep = pairing_reference(evals, l, 'environment_id')
+        keep = pairing_reference(evals, l, 'environment_id') if p else list(evals)
         sym.check(not keep, "raw_learners refused a Result that has a complete pairing group"); return
-    keep = pairing_reference(evals, l, 'environment_id')
+    keep = pairing_reference(evals, l, 'environment_id') if p else list(evals)
     sym.check(bool(keep), "raw_learners produced data although no pairing group is complete")
     lval = lambda k: k[1] if l == 'learner_id' else LRN_PARAMS[k[1]]['family']
     data = {c: t[c] for c in t.columns}
@@ -169,6 +171,9 @@ def raw_learners(sym, ne, x, span, l):
                     Y = evals[k]
                     exp.append(Y[-1] if span == 1 else (sum(Y[-span:])/len(Y[-span:]) if span else sum(Y)/len(Y)))
                 got = list(data[lv][xi])
+                if not exp:
+                    sym.check(len(got) == 1 and not is_sym_like(got[0]) and got[0] != got[0], f"x={xv}, learner {lv!r}: no evaluation at this x, expected [nan], got {len(got)} values")
+                    continue
                 sym.check(len(got) == len(exp), f"x={xv}: {len(got)} per-environment values, expected {len(exp)}")
                 for g,e_ in zip(got,exp): sym.check(g == e_, f"x={xv}, learner {lv!r}: not the final {'progressive' if span is None else f'last-{span}'} average of the evaluation")
 
